@@ -1,5 +1,6 @@
 ---- MODULE MC_q_dev_stats ----
 EXTENDS MCOFWire
 TheCases == Deviations(StatsKinds)
+TheRCases == {}
 TheAround == AroundOne
 ====
